@@ -16,6 +16,8 @@ from ipaddress import (
 from typing import Protocol
 from urllib.parse import urlparse
 
+from ..utils.url import canonical_path
+
 
 class Middleware(Protocol):
     """Protocol for middleware components."""
@@ -347,7 +349,9 @@ class CertificateAuth:
         """
         try:
             parsed = urlparse(request_url)
-            return parsed.path or "/"
+            # Rules apply to the resource that is served, whatever spelling the
+            # request used (repeated slashes, dot segments, percent-escapes)
+            return canonical_path(parsed.path or "/")
         except Exception:
             return "/"
 
@@ -361,7 +365,8 @@ class CertificateAuth:
             The first matching rule, or None if no rule matches.
         """
         for rule in self.config.path_rules:
-            if path.startswith(rule.prefix):
+            # "/app" names the directory that the prefix "/app/" protects
+            if path.startswith(rule.prefix) or path + "/" == rule.prefix:
                 return rule
         return None
 
